@@ -725,6 +725,7 @@ def run_cases(cases, ctx):
             spans.append((len(reqs), len(reqs) + len(r)))
             reqs.extend(r)
         ans = lib.run_driver_parallel(ctx['model_exe'], reqs)
+        spans_model, ans_model = spans, ans
         for k, (c, o, (a, b)) in enumerate(zip(cases, obs, spans)):
             d = compare(c, o, ans[a:b])
             if d is not None:
@@ -789,6 +790,11 @@ def run_cases(cases, ctx):
                                'expected': 'verdict 0'})
         if len(raw) > len(violations):
             hist['monitor:violations-not-shrunk (same classes)'] = len(raw) - len(violations)
+    if ctx.get('tier') == 'thorough' and ctx.get('model_exe'):
+        d = coq_shard(cases, obs, model_codes, spans_model, ans_model)
+        if d:
+            disagreements.append({'case': None, 'summary': 'in-Coq evaluation shard', 'difference': d})
+        hist['coq-shard-cases'] = SHARD
     keys = set()
     for c, o in zip(cases, obs):
         k = nontrivial_key(c, o)
@@ -802,6 +808,57 @@ def run_cases(cases, ctx):
     return {'evaluations': len(cases), 'nontrivial': len(keys), 'rule': RULE, 'samples': samples,
             'disagreements': disagreements, 'violations': violations, 'histogram': hist,
             'impl_seconds': round(t_impl, 2)}
+
+
+SHARD = 24
+
+
+def _zl(b):
+    return '[' + '; '.join(str(x) for x in b) + ']'
+
+
+def coq_shard(cases, obs, model_codes, spans, ans):
+    """Thorough tier: evaluate run_build INSIDE Coq (vm_compute) on a shard of the cases and require the
+    result the extracted OCaml runner gave (cross-check of extraction and of the OCaml glue)."""
+    import subprocess
+    picked = [k for k, c in enumerate(cases) if c['npk'] >= 1 and not obs[k].get('timeout')][:SHARD]
+    if not picked:
+        return None
+    out = ['From PV Require Import Base.Prelude Model.FilesInst Model.ReqEmbed Model.ReqEmbedInst.\n']
+    for j, k in enumerate(picked):
+        c, o = cases[k], obs[k]
+        sb = o['sb']
+        a = ans[spans[k][0]].split(' ')
+        fs = '[' + '; '.join('(%s, %s)' % (_zl(os.path.normpath(os.path.join(sb, rel)).encode()), _zl(lib.unhx(h)))
+                            for rel, h in sorted(c['files'].items())) + ']'
+
+        def opt(x):
+            return 'None' if x is None else 'Some %s' % _zl(_subst(x, sb).encode())
+        if a[0] == 'OK':
+            names = [] if a[2] == '~' else [lib.unhx(x) for x in a[2].split(',')]
+            exp = 'Ok (%s, [%s])' % (_zl(lib.unhx(a[1])), '; '.join(_zl(n) for n in names))
+        elif a[0] == 'ERR':
+            exp = 'Err %s' % a[1]
+        else:
+            return 'runner answer unreadable: ' + ' '.join(a)[:100]
+        out.append('Example shard_%d : run_build %s %s (effective_lua_path_now (%s) (%s)) %s %s = %s.\n'
+                   'Proof. vm_compute. reflexivity. Qed.\n' % (
+                       j, _zl(sb.encode()), fs, opt(c['arg']), opt(c['env']), _zl(c['main'].encode()),
+                       _zl(lib.unhx(c['files'][c['main']])), exp))
+    d = os.path.join(lib.ROCQ, 'cases')
+    os.makedirs(d, exist_ok=True)
+    p = os.path.join(d, 'cases_C14.v')
+    with open(p, 'w') as fh:
+        fh.write(''.join(out))
+    try:
+        r = subprocess.run(['timeout', '600', 'coqc', '-Q', 'theories', 'PV', 'cases/cases_C14.v'], cwd=lib.ROCQ,
+                           capture_output=True, text=True, timeout=630)
+    except subprocess.TimeoutExpired:
+        return 'in-Coq shard timed out'
+    if r.returncode != 0:
+        e = lib.first_coq_error(r.stdout + r.stderr + '\n\n')
+        return 'in-Coq evaluation of run_build differs from the extracted runner: %s' % (e or (r.stderr[-300:]))
+    return None
 
 
 def search(ctx, budget):
